@@ -8,7 +8,7 @@
    commands (r<abc> = revision of raft.rs, Raft.raftrev: a = fix_vote_term, b = fix_vote_match, c = fix_ack_term;
    optional, default r000 = rr_pinned; the two-bit form r<ab> of older replay files means c = 0):
      run  [r<abc>] <n> <ev>...   -> the state line after every event, joined by " ;; "
-     flags [r<abc>] <n> <ev>...  -> es=<0|1> agree=<0|1> lc=<0|1> dv=.. sv=.. ad=.. ot=.. av=.. nq=..   (oracles / KnownClass on the model's run; lc = leaders of HIGHER terms hold the leader-committed entries)
+     flags [r<abc>] <n> <ev>...  -> es=<0|1> agree=<0|1> lc=<0|1> dv=.. sv=.. ad=.. ot=.. av=.. nq=.. sa=..   (sa = root-cause marker RaftLog.stale_ack_counted_b; oracles / KnownClass on the model's run; lc = leaders of HIGHER terms hold the leader-committed entries)
    events: (T i elapsed (j ...)) (D k elapsed) (X k) (U k) (A i d); numbers decimal *)
 open Model
 open Util
@@ -78,9 +78,9 @@ let handle (cmd : string) (args : sexp list) : string =
     let evl = List.map ev_of_sexp evs in
     let c = run rv (n_of_s n) evl in
     let h = c.c_hist in
-    Printf.sprintf "es=%s agree=%s lc=%s dv=%s sv=%s ad=%s ot=%s av=%s nq=%s"
+    Printf.sprintf "es=%s agree=%s lc=%s dv=%s sv=%s ad=%s ot=%s av=%s nq=%s sa=%s"
       (b (election_safety_b h)) (b (committed_agree_b c)) (b (leader_completeness_up_b h))
       (b (double_vote_b h)) (b (stale_vote_b h)) (b (ack_diverged_b h)) (b (old_term_commit_b h)) (b (ack_below_vote_b h))
-      (b (commit_noquorum_b rv (n_of_s n) evl))
+      (b (commit_noquorum_b rv (n_of_s n) evl)) (b (stale_ack_counted_b rv (n_of_s n) evl))
   | "init", [A n] -> str_cluster (init_default (n_of_s n))
   | _ -> failwith ("raft: bad command " ^ cmd)
